@@ -150,6 +150,11 @@ func (u *UDP) VerifyChecksum() (error, gopacket.ChecksumVerificationResult) {
 		return err, gopacket.ChecksumVerificationResult{}
 	}
 	correct := gopacket.FoldChecksum(verification - uint32(existing))
+	// RFC768: a computed checksum of zero is transmitted as all ones (see
+	// SerializeTo), so that is the value expected in the packet.
+	if correct == 0 {
+		correct = 0xffff
+	}
 	return nil, gopacket.ChecksumVerificationResult{
 		Valid:   existing == 0 || correct == existing,
 		Correct: uint32(correct),
